@@ -161,6 +161,16 @@ func RandomProgram(seed uint64, o RandomOpts) *Program {
 			}
 			oneofTaken[g] = true
 			allOneofs = append(allOneofs, g)
+			// sometimes a second group of the same message, declared BEFORE this one, whose name ends in this
+			// one's name (and one declared after it that starts with it)
+			if pre := "Pre" + g; r.p(1, 6) && !strings.Contains(g, "_") && !oneofTaken[pre] {
+				oneofTaken[pre] = true
+				allOneofs = append(allOneofs, pre)
+				m.Oneofs = append(m.Oneofs, pre)
+				for b := 0; b < 2; b++ {
+					m.Fields = append(m.Fields, Field{Name: fieldName(), Num: nextNum(), Oneof: pre, Kind: []string{KString, KInt64}[b]})
+				}
+			}
 			m.Oneofs = append(m.Oneofs, g)
 			nb := 1 + r.n(3) // a group may have a single branch
 			for b := 0; b < nb; b++ {
